@@ -222,3 +222,14 @@ Example argsort_example :
   let c := {| p_int := 1125899906842623; p_frac := 0.5; p_imag := false |} in
   argsort [a; b; c; a] = [2; 1; 0; 3]%nat.
 Proof. vm_compute. reflexivity. Qed.
+
+(* non-vacuity of the hypotheses: a concrete phase satisfies ok_int (hence ok_ph), so lists built from it satisfy the sort theorems *)
+Example ok_int_example : ok_int {| p_int := 3; p_frac := 0.25; p_imag := false |}.
+Proof.
+  unfold ok_int. cbn [p_int p_frac p_imag].
+  assert (E3 : R_of 3%float = 3) by (unfold R_of, Prim2B; cbn; unfold B2R, SF2B; cbn; unfold F2R; cbn; lra).
+  assert (E4 : R_of 0.25%float = / 4) by (unfold R_of, Prim2B; cbn; unfold B2R, SF2B; cbn; unfold F2R; cbn; lra).
+  split; [reflexivity|]. split; [reflexivity|]. split; [reflexivity|]. split.
+  - exists 3%Z. split; [exact E3|]. cbn. lia.
+  - rewrite E4. rewrite Rabs_pos_eq by lra. pose proof (bpow_gt_0 radix2 (-50)). lra.
+Qed.
